@@ -336,6 +336,10 @@ fn export<'tcx>(tcx: TyCtxt<'tcx>, want_mir: bool) -> J {
             let prom = tcx.promoted_mir(did);
             let pj: Vec<J> = prom.iter().map(|b| mirx::body_j(tcx, did, b)).collect();
             o.push(("promoted", J::A(pj)));
+        } else if want_mir && is_const_like && !matches!(kind, DefKind::AssocConst { .. }) {
+            // bodies of constants / statics (compile-time evaluated, exported for the value flow of non-scalar constants)
+            let body = tcx.mir_for_ctfe(did);
+            o.push(("mir", mirx::body_j(tcx, did, body)));
         }
         fns.push(J::O(o));
     }
